@@ -944,24 +944,54 @@ func ruleCopierStructure(c *core.Ctx) {
 		o.At(fn.Site(head.Cond.Range, "element loop"))
 		// stores into the output: out[i] = ... or out = append(out, ...)
 		var stores []*core.V
+		appends, indexed := 0, 0
+		presized := true
 		for _, v := range g.Vs {
 			as, ok := v.AST.(*ast.AssignStmt)
-			if !ok || len(as.Lhs) != 1 || !g.InLoop(v) {
+			if !ok || !g.InLoop(v) {
 				continue
 			}
-			if ix, ok := ast.Unparen(as.Lhs[0]).(*ast.IndexExpr); ok {
-				if _, isArr := info.TypeOf(ix.X).Underlying().(*types.Slice); isArr {
-					stores = append(stores, v)
+			for _, l := range as.Lhs {
+				if ix, ok := ast.Unparen(l).(*ast.IndexExpr); ok {
+					if _, isArr := info.TypeOf(ix.X).Underlying().(*types.Slice); isArr {
+						stores = append(stores, v)
+						indexed++
+						// out := make(T, len(in)): one slot per element whatever the loop stores
+						okSize := false
+						if obj := core.ObjOf(info, ix.X); obj != nil {
+							for _, d := range defVertices(g, obj) {
+								if rhs, found := rhsFor(info, d, obj); found && rhs != nil {
+									if mk, isCall := ast.Unparen(rhs).(*ast.CallExpr); isCall && core.CalleeKey(info, mk) == "builtin.make" && len(mk.Args) == 2 {
+										if lc, isLen := ast.Unparen(mk.Args[1]).(*ast.CallExpr); isLen && core.CalleeKey(info, lc) == "builtin.len" {
+											okSize = true
+										}
+									}
+								}
+							}
+						}
+						if !okSize {
+							presized = false
+						}
+					}
 				}
 			}
-			if call, ok := ast.Unparen(as.Rhs[0]).(*ast.CallExpr); ok {
-				if id, ok := call.Fun.(*ast.Ident); ok && id.Name == "append" {
-					stores = append(stores, v)
+			if len(as.Lhs) == 1 && len(as.Rhs) == 1 {
+				if call, ok := ast.Unparen(as.Rhs[0]).(*ast.CallExpr); ok {
+					if id, ok := call.Fun.(*ast.Ident); ok && id.Name == "append" {
+						stores = append(stores, v)
+						appends++
+					}
 				}
 			}
 		}
 		o.Require(len(stores) >= 1, "no store into the output array found")
 		o.Count(1)
+		if appends == 0 && indexed > 0 && presized {
+			// the output has one slot per input element from the start; an iteration
+			// that stores nothing leaves a null there, the arrays stay parallel
+			o.Fact("the output array is allocated with the length of the input and filled by index")
+			return
+		}
 		body := succ(head, core.EdgeTrue)
 		if g.ReachFrom(body, true, core.AvoidVs(stores...))[head] {
 			o.Fail("%s: an iteration can finish without storing an element: the output array is shorter than the input and /DecodeParms no longer lines up with /Filter", c.Prog.Pos(head.Cond.Range.Pos()))
